@@ -9,7 +9,9 @@
      CRejectFront    the lexer or parser reports a syntax error (CompilerSyntaxError, D9), the
                      visitor refuses a goal/head that is not callable or a clause-head name that is
                      not an identifier (CompilerError, D12), `true.`/`fail.`/`!.` as a clause, a
-                     `name/arity` term or a numeral used as functor name
+                     `name/arity` term; or the compiler reaches a compound term / goal whose name is a
+                     numeral (`1(a)`: AttributeError in compile_expression / compile_predicate; not in
+                     dead code after `fail`, which compile_body drops -- Comp/NumeralName.v)
      CRejectNumeral  a numeral of more than 4300 digits reaches generate_value (ValueError from int())
      CTooLarge       the emitted text exceeds CPython's static limits (CompilerError, D13)
    The Unicode database (str.isprintable per code point) that repr() consults is the parameter
@@ -20,7 +22,7 @@ From Coq Require Import String.
 From Coq Require Import List Arith Bool NArith.
 Import ListNotations.
 From YP Require Import Base.Str Lang.Ast Lang.Front Comp.IR Comp.CompileBody Comp.CompileClause Comp.Emit
-  Comp.PyRepr Comp.Limits.
+  Comp.PyRepr Comp.Limits Comp.NumeralName.
 Local Open Scope string_scope.
 Local Open Scope list_scope.
 
@@ -38,7 +40,7 @@ Definition finish (printable : N -> bool) (ir : ir_program) : cresult :=
 
 Definition compile_ast (printable : N -> bool) (p : program) : cresult :=
   match compile_program p with
-  | Some ir => finish printable ir
+  | Some ir => if ir_bad ir then CRejectFront else finish printable ir
   | None => CRejectFront            (* never: compile_program_total *)
   end.
 
